@@ -65,7 +65,8 @@ def run(ctx):
         "C05.same-name": "a Planar/Spatial/Lorentz method whose name is the name of a compute module of its group dispatches to that module (Spatial.deltaeta -> spatial.deltaeta), not to a sibling with the same dispatch signature",
         "C05.module-of": "_compute_module_of(one, two) returns the module of the smaller dimension for each of the 9 dimension pairs, and that module has add/subtract/dot",
         "C05.same-dimension": "the nine arithmetic/comparison methods call _maybe_same_dimension_error(self, other, ...) on every path before dispatch; the helper raises TypeError iff dimensions differ; dim() maps Vector2D/3D/4D to 2/3/4",
-        "C05.dimension-guards": "cross requires two 3D operands; deltaangle/deltaeta/deltaR/deltaR2 require a 3D or 4D other; deltaRapidityPhi(2) require a 4D other",
+        "C05.dimension-guards": "cross requires two 3D operands; deltaangle/deltaeta/deltaR/deltaR2 require a 3D or 4D other; deltaRapidityPhi(2) require a 4D other; boost_p4 / boostCM_of_p4 require a 4D and boost_beta3 / boostCM_of_beta3 a 3D operand, tested on the dimension (a mix-in isinstance test would let a 4D vector pass for a 3D one)",
+        "C05.defaults-agree": "a method of Planar/Spatial/Lorentz that the VectorProtocol* classes declare has the same parameters and default values as the protocol (the documented signature)",
         "C05.handler": "_handler_of returns the operand whose backend has strictly higher priority (object < numpy < sympy < awkward), ties keep the first; _handler_priority is that order",
         "C05.counted-operands": "each dispatcher passes to _handler_of/_flavor_of exactly the counted operands (all vector operands; rotate_axis only the rotated vector)",
         "C05.flavor": "_flavor_of returns handler.MomentumClass iff some operand is a Momentum vector, else GenericClass, and the class belongs to a backend the handler chosen by _handler_of can instantiate",
@@ -194,6 +195,10 @@ def run(ctx):
         ("Spatial", "deltaR2"): "if dim(other) != 3 and dim(other) != 4: raise TypeError",
         ("Lorentz", "deltaRapidityPhi"): "if not dim(other) == 4: raise TypeError",
         ("Lorentz", "deltaRapidityPhi2"): "if not dim(other) == 4: raise TypeError",
+        ("Lorentz", "boost_p4"): "if dim(p4) != 4: raise TypeError",
+        ("Lorentz", "boost_beta3"): "if dim(beta3) != 3: raise TypeError",
+        ("Lorentz", "boostCM_of_p4"): "if dim(p4) != 4: raise TypeError",
+        ("Lorentz", "boostCM_of_beta3"): "if dim(beta3) != 3: raise TypeError",
     }
     for (cls, name), g in guard_spec.items():
         m = (sp if cls == "Spatial" else lo).get(name)
@@ -202,6 +207,47 @@ def run(ctx):
         ok = len(m.sites) == 1 and g in m.sites[0].guards
         ctx.ob("C05.dimension-guards", f"{cls}.{name}", ok, f"guards before dispatch are {m.sites[0].guards if m.sites else None}; expected `{g}`", None,
                f"src/vector/_methods.py:{m.fn.lineno}")
+
+    # ---- defaults: implementation == protocol ---------------------------------------------------------------
+    import ast as _ast
+
+    mfacts = facts("src/vector/_methods.py", ctx.repo)
+    proto = {}
+    for cname, cnode in mfacts.classes.items():
+        if cname.startswith("VectorProtocol"):
+            for st in cnode.body:
+                if isinstance(st, _ast.FunctionDef):
+                    proto.setdefault(st.name, []).append((cname, st))
+
+    def sig(fn_):
+        a = fn_.args
+        names = [x.arg for x in a.args]
+        d = [unparse(x) for x in a.defaults]
+        pos = {n: v for n, v in zip(names[len(names) - len(d):], d)}
+        kwo = {x.arg: (unparse(v) if v is not None else None) for x, v in zip(a.kwonlyargs, a.kw_defaults)}
+        return names, pos, kwo
+
+    n_def = 0
+    for cls in ("Planar", "Spatial", "Lorentz"):
+        cnode = mfacts.classes.get(cls)
+        if cnode is None:
+            raise AnalysisError(f"anchor class {cls} missing")
+        for st in cnode.body:
+            if not isinstance(st, _ast.FunctionDef) or st.name.startswith("_") or st.name not in proto:
+                continue
+            if any(unparse(d_) in ("property",) or unparse(d_).endswith(".setter") for d_ in st.decorator_list):
+                continue
+            names, pos, kwo = sig(st)
+            # the protocol of the matching dimension if it declares the method, else any protocol class that does
+            cands = proto[st.name]
+            want = next((c for c in cands if c[0].endswith(cls)), cands[0])
+            pn, pp, pk = sig(want[1])
+            n_def += 1
+            ok = names == pn and pos == pp and kwo == pk
+            ctx.ob("C05.defaults-agree", f"{cls}.{st.name}", ok,
+                   f"signature ({', '.join(names)}) defaults {pos} {kwo or ''} differs from {want[0]}.{st.name} ({', '.join(pn)}) defaults {pp} {pk or ''}",
+                   None, f"src/vector/_methods.py:{st.lineno}")
+    ctx.anchor("methods compared with their protocol signature", n_def, 60)
 
     # ---- handler priority ---------------------------------------------------------------------------------
     mf = facts("src/vector/_methods.py", ctx.repo)
